@@ -238,9 +238,13 @@ class RealWorld:
                 return '-'
             xobj = ','.join(f'{k}:{handle(v)}' for k, v in res['XObject'].items())
             pattern = ','.join(handle(v) for v in res['Pattern'].values())
-            assert list(res['Pattern']) == [f'p{i}' for i in range(len(res['Pattern']))]
-            assert list(res['Shading']) == [f's{i}' for i in range(len(res['Shading']))]
-            res_parts.append(f'R E={",".join(res["ExtGState"])} X={xobj} P={pattern} Sh={len(res["Shading"])}')
+            # the model keeps patterns / shadings as `p0 p1 …` / a count: any other key set is printed as it is
+            if list(res['Pattern']) != [f'p{i}' for i in range(len(res['Pattern']))]:
+                pattern = 'keys:' + ','.join(res['Pattern'])
+            shading = str(len(res['Shading']))
+            if list(res['Shading']) != [f's{i}' for i in range(len(res['Shading']))]:
+                shading = 'keys:' + ','.join(res['Shading'])
+            res_parts.append(f'R E={",".join(res["ExtGState"])} X={xobj} P={pattern} Sh={shading}')
         images = ' '.join(
             f'{name}=' + ','.join(rat(r) for r in _ordered(data['dpi_ratios'], self.image_order.get(name, [])))
             for name, data in self.images.items())
